@@ -415,7 +415,7 @@ impl<T: Dom> Sys<T> {
             history: vec![],
             failed: None,
         };
-        st.failed = self.observe(&st.set, &st.model).err();
+        st.failed = self.observe(&st.set, &st.model, true).err();
         st
     }
 
@@ -486,13 +486,14 @@ impl<T: Dom> Sys<T> {
 
     /// one transition: clone, apply, compare every observer. Panics of the code under test are
     /// converted into a failed state.
-    pub fn step(&self, st: &State<T>, ai: usize) -> State<T> {
+    /// `full`: run the whole-length observers too (see `observe`)
+    pub fn step(&self, st: &State<T>, ai: usize, full: bool) -> State<T> {
         let act = &self.actions[ai];
         let mut set = st.set.clone();
         let mut model = st.model.clone();
         let r = vcore::guard(|| {
             self.apply(&mut set, &mut model, act)?;
-            self.observe(&set, &model)
+            self.observe(&set, &model, full)
         });
         let failed = match r {
             Ok(Ok(())) => None,
@@ -519,9 +520,16 @@ impl<T: Dom> Sys<T> {
     }
 
     /// Compare every observer of `set` with the reference. Err = (observer label, details).
-    pub fn observe(&self, set: &IntSet<T>, model: &RSet) -> Result<(), (String, String)> {
+    ///
+    /// Two tiers. Every transition gets the *prefix* tier: all observers, with iterators followed for
+    /// a 24-element prefix from either end. Every state whose canonical key (members + representation
+    /// fingerprint) is new additionally gets the *full* tier (`full = true`): iterators followed over
+    /// the whole set (small domains) and the fresh-set ==/cmp/hash comparisons. A transition that lands
+    /// on an already seen key has, by definition of the key, the same members in the same
+    /// representation as a state that received the full tier.
+    pub fn observe(&self, set: &IntSet<T>, model: &RSet, full: bool) -> Result<(), (String, String)> {
         let n = T::N;
-        let k = self.k;
+        let k = if full { self.k } else { 24 };
         let fail = |label: &str, d: String| -> Result<(), (String, String)> { Err((label.to_string(), d)) };
 
         // representation invariant exposed by the hook: cached lengths equal populations
@@ -573,7 +581,7 @@ impl<T: Dom> Sys<T> {
         }
         // double-ended iteration meeting in the middle: alternate next / next_back
         {
-            let lim = if k == usize::MAX { usize::MAX } else { 64 };
+            let lim = if k == usize::MAX { usize::MAX } else { k.min(64) };
             let mut it = set.iter();
             let (mut f, mut b) = (vec![], vec![]);
             let mut steps = 0usize;
@@ -620,7 +628,7 @@ impl<T: Dom> Sys<T> {
             }
         }
         // iter_after
-        let kk = if k == usize::MAX { usize::MAX } else { 40 };
+        let kk = if k == usize::MAX { usize::MAX } else { k.min(40) };
         for p in &self.v {
             let exp = model.after(*p).head(kk.min(n as usize));
             let got: Vec<u64> = set.iter_after(T::val(*p)).take(kk).map(T::idx).collect();
@@ -677,7 +685,7 @@ impl<T: Dom> Sys<T> {
         // "from elsewhere": the same members built freshly in either mode must be ==, cmp Equal and
         // hash-equal to this set whatever its history
         let h = hash_of(set);
-        if model.len() <= 2 * WIDE {
+        if full && model.len() <= 2 * WIDE {
             let mut fresh = IntSet::<T>::empty();
             for (a, b) in &model.r {
                 fresh.insert_range(T::val(*a)..=T::val(*b));
@@ -692,7 +700,7 @@ impl<T: Dom> Sys<T> {
                 return fail("hash", "hash differs from a fresh inclusive set with the same members".into());
             }
         }
-        if comp.len() <= 2 * WIDE {
+        if full && comp.len() <= 2 * WIDE {
             let mut fresh = IntSet::<T>::all();
             for (a, b) in &comp.r {
                 fresh.remove_range(T::val(*a)..=T::val(*b));
@@ -741,6 +749,7 @@ pub struct BfsResult<T: Dom> {
     /// cumulative unique states after each level (index 0 = initial state only)
     pub unique_by_level: Vec<u64>,
     pub transitions: u64,
+    pub full_observations: u64,
     /// first failure in BFS order (shortest history)
     pub failure: Option<State<T>>,
     /// all states of the search (for the codec round trip), only kept when asked
@@ -761,6 +770,7 @@ pub fn bfs_level_sync<T: Dom>(sys: &Sys<T>, depth: usize, threads_parallel: bool
     let mut res = BfsResult {
         unique_by_level: vec![1],
         transitions: 0,
+        full_observations: 1,
         failure: None,
         member_sets: vec![],
         modes_seen: (0, 0),
@@ -803,13 +813,14 @@ pub fn bfs_level_sync<T: Dom>(sys: &Sys<T>, depth: usize, threads_parallel: bool
             let succ: Vec<State<T>> = if threads_parallel {
                 chunk
                     .par_iter()
-                    .flat_map_iter(|st| (0..na).map(move |ai| sys.step(st, ai)))
+                    .flat_map_iter(|st| (0..na).map(move |ai| sys.step(st, ai, false)))
                     .collect()
             } else {
-                chunk.iter().flat_map(|st| (0..na).map(move |ai| sys.step(st, ai))).collect()
+                chunk.iter().flat_map(|st| (0..na).map(move |ai| sys.step(st, ai, false))).collect()
             };
             res.transitions += succ.len() as u64;
             // deterministic order: chunk order, state order, action order
+            let mut fresh: Vec<State<T>> = vec![];
             for s in succ {
                 if s.failed.is_some() {
                     if res.failure.is_none() {
@@ -819,6 +830,30 @@ pub fn bfs_level_sync<T: Dom>(sys: &Sys<T>, depth: usize, threads_parallel: bool
                 }
                 if seen.insert(s.key.clone()) {
                     note(&s, &mut res);
+                    fresh.push(s);
+                }
+            }
+            // full observer tier on every new key
+            let full_check = |s: &mut State<T>| {
+                let r = vcore::guard(|| sys.observe(&s.set, &s.model, true));
+                s.failed = match r {
+                    Ok(Ok(())) => None,
+                    Ok(Err(e)) => Some(e),
+                    Err(p) => Some((format!("panic {}", p.kind()), format!("{} at {}:{}", p.message, p.file, p.line))),
+                };
+            };
+            if threads_parallel {
+                fresh.par_iter_mut().for_each(full_check);
+            } else {
+                fresh.iter_mut().for_each(full_check);
+            }
+            res.full_observations += fresh.len() as u64;
+            for s in fresh {
+                if s.failed.is_some() {
+                    if res.failure.is_none() {
+                        res.failure = Some(s);
+                    }
+                } else {
                     next.push(s);
                 }
             }
@@ -845,6 +880,8 @@ pub struct SrModel<T: Dom> {
     /// transition is also recorded here
     pub first_failure: std::sync::Arc<std::sync::Mutex<Option<State<T>>>>,
     pub transitions: std::sync::Arc<std::sync::atomic::AtomicU64>,
+    /// keys that already received the full observer tier
+    pub full_seen: std::sync::Arc<std::sync::Mutex<std::collections::HashSet<Key>>>,
 }
 
 impl<T: Dom> stateright::Model for SrModel<T> {
@@ -857,7 +894,15 @@ impl<T: Dom> stateright::Model for SrModel<T> {
         actions.extend(0..self.sys.actions.len());
     }
     fn next_state(&self, last: &Self::State, action: Self::Action) -> Option<Self::State> {
-        let s = self.sys.step(last, action);
+        let mut s = self.sys.step(last, action, false);
+        if s.failed.is_none() && self.full_seen.lock().unwrap().insert(s.key.clone()) {
+            let r = vcore::guard(|| self.sys.observe(&s.set, &s.model, true));
+            s.failed = match r {
+                Ok(Ok(())) => None,
+                Ok(Err(e)) => Some(e),
+                Err(p) => Some((format!("panic {}", p.kind()), format!("{} at {}:{}", p.message, p.file, p.line))),
+            };
+        }
         self.transitions.fetch_add(1, std::sync::atomic::Ordering::Relaxed);
         if s.failed.is_some() {
             let mut g = self.first_failure.lock().unwrap();
